@@ -2,6 +2,7 @@
 """C01 Canonical SMILES, equality and hash depend on structure only -- structural clauses."""
 from ..r_canon import rule_hash_inputs, rule_order_free_hash, rule_final_ranking, rule_eq_hash_wiring
 from ..r_protocol import run_protocol
+from ..r_alias import rule_fix_stereo_exit, rule_no_mutation_of_cached
 
 LEVEL = 'other'
 REFINE = ['chython.algorithms.morgan:_morgan']
@@ -18,3 +19,6 @@ def run(ck, repo):
     rule_hash_inputs(ck, repo, 'C01.D3-hash-inputs')
     # D4: every mutation invalidates the cached string / orders (FLUSH dimension of the mutator protocol)
     run_protocol(ck, repo, 'C01.D4-flush', only_dims={'FLUSH', 'KEEP'})
+    # the stereo-aware ranks the writer uses are dropped whenever labels change, and the cached ranks are never edited in place
+    rule_fix_stereo_exit(ck, repo, 'C01.D4-stereo-ranks-dropped')
+    rule_no_mutation_of_cached(ck, repo, 'C01.D4-cached-ranks-not-mutated')
